@@ -77,6 +77,18 @@ Theorem export_import_ast_partial : forall b, ambus b ->
 Proof. exact RoundTripAll.export_import_all_thm. Qed.
 Print Assumptions export_import_ast_partial.
 
+(* the merged hypothesis is the union of the fragments: the multiplexer fragment lies inside it, and so does the
+   attribute fragment (hence the enum and plain fragments) when the signal ids of every message are distinct -
+   `export_import_ast_mux_partial` and, under that proviso, `_attr/_enum/_plain_partial` are corollaries *)
+Theorem merged_fragment_contains_mux : forall b, mbus b -> ambus b.
+Proof. exact RoundTripAll.mbus_ambus. Qed.
+Print Assumptions merged_fragment_contains_mux.
+
+Theorem merged_fragment_contains_attr : forall b, abus b ->
+  Forall (fun m => NoDup (map s_id (m_signals m))) (b_messages b) -> ambus b.
+Proof. exact RoundTripAll.abus_ambus. Qed.
+Print Assumptions merged_fragment_contains_attr.
+
 (* attribute definitions of the four types (and hex format), defaults included *)
 Theorem attr_def_roundtrip : forall k name d, wf_def d ->
   let '(da, dd) := export_attribute k name d in
